@@ -462,6 +462,17 @@ class RunClass(Run):
                 for i in range(2 * n):
                     for j in range(n):
                         self.bin("letter:r%d:q%d" % (i, j), cls[i][j])
+                # ... and every PAIR of images is uniform over the anticommuting pairs (images of
+                # X_k, Z_k) resp. over the commuting independent pairs: the joint law of the two
+                # letters at one site is known (rows related to each other the wrong way show here
+                # although each row alone is uniform); the sign bits of two rows are independent
+                sites = range(n) if n == 4 else (0, n - 1)
+                for i in range(2 * n):
+                    for j in range(i + 1, 2 * n):
+                        for q in sites:
+                            self.bin("pairletter:r%d:r%d:q%d" % (i, j, q), (cls[i][q], cls[j][q]))
+                        if ps is not None:
+                            self.bin("signpair:r%d:r%d" % (i, j), (sgn[i], sgn[j]))
             return (cls, sgn)
         if kind == "state":
             gs, ps, r = raw[1], raw[2], raw[3]
@@ -486,6 +497,11 @@ class RunClass(Run):
                     self.bad("bit_state_not_computational")
                 if n == 3:
                     self.bin("bits", tuple(rows[i][1] for i in range(n)))
+            if s in ("rcs", "t:rcs", "global") and n >= 3 and a.rank == 0:
+                # gauge-independent law for every N: a fixed non-identity Pauli is +-stabilizer of a
+                # uniform pure stabilizer state with probability (2^N-1)/(4^N-1), both signs alike
+                for k, P in enumerate(fixed_observables(n)):
+                    self.bin("obs%d" % k, a.eigenvalue(P))
             if s in ("global", "brickwall", "mcirc") and n == 2:
                 self.bin("state", a.key())
             if s == "fcirc" and n == 2 and len(self.cfg["rand_qubits"]) == 2:
@@ -529,6 +545,36 @@ class RunClass(Run):
             if d < need:
                 raise Violation("c16.not_resampled", {"sampler": s, "n": n, "calls": k, "distinct": d, "need": need,
                                                       "regime": self.cfg["regime"]})
+
+
+def fixed_observables(n):
+    """a few fixed Hermitian Paulis (letters 1=X 2=Y 3=Z) for the gauge-independent state law."""
+    obs = [tuple(3 if i == 0 else 0 for i in range(n)),
+           tuple(1 if i == n - 1 else 0 for i in range(n)),
+           tuple(2 if i < 2 else 0 for i in range(n)),
+           tuple(3 for i in range(n)),
+           tuple((1, 3, 2)[i] if i < 3 else 0 for i in range(n))]
+    return [(o, 0) for o in obs]
+
+
+def pair_law(n, partner):
+    """number of ordered pairs (P, Q) of N-qubit strings with letters (a, b) at one site, among the
+    anticommuting pairs (partner) resp. the commuting pairs of distinct non-identity strings."""
+    F = 4 ** (n - 1)
+    A0, A1 = F * (F + 1) // 2, (F - 1) * F // 2     # pairs of rest strings that commute / anticommute
+    cnt = {}
+    for a in range(4):
+        for b in range(4):
+            c = 1 if (a and b and a != b) else 0
+            if partner:
+                cnt[(a, b)] = A0 if c else A1
+            elif c:
+                cnt[(a, b)] = A1
+            elif a == 0 and b == 0:
+                cnt[(a, b)] = A0 - (3 * F - 2)
+            else:
+                cnt[(a, b)] = A0 - F
+    return cnt
 
 
 # ----------------------------------------------------------------- batch level
@@ -635,6 +681,35 @@ def batch_oracles(merged, mode):
                 out.append((name, x2 <= thr, {"statistic": "chi2 of (sign bit, first letter) of one image against independence",
                                              "sampler": sampler, "N": n, "regime": regime, "stat": stat, "n": total,
                                              "chi2": round(x2, 2), "threshold": round(thr, 2), "false_alarm_level": 1e-9}))
+            continue
+        if stat.startswith("pairletter:") or stat.startswith("signpair:") or stat.startswith("obs"):
+            if stat.startswith("pairletter:"):
+                _, ri, rj, _q = stat.split(":")
+                i, j = int(ri[1:]), int(rj[1:])
+                law = pair_law(n, partner=(i ^ 1) == j)
+                what = "chi2 of the two letters of two images at one site against the uniform-pair law"
+            elif stat.startswith("signpair:"):
+                law = {(a, b): 1 for a in (0, 2) for b in (0, 2)}
+                what = "chi2 of the sign bits of two images against independence"
+            else:
+                k = 2 ** n - 1
+                law = {1: k, -1: k, None: 2 * (4 ** n - 1) - 2 * k}
+                what = "chi2 of <P> in {+1,-1,0} for a fixed Pauli P against the uniform-state law"
+            tot_w = float(sum(law.values()))
+            if any(b not in law for b in cnt):
+                out.append((name, False, {"statistic": "impossible class", "sampler": sampler, "N": n, "regime": regime,
+                                          "stat": stat, "classes": sorted(map(repr, set(cnt) - set(law)))}))
+                continue
+            if min(total * w / tot_w for w in law.values() if w) < 20:
+                continue
+            x2 = sum((cnt.get(b, 0) - total * w / tot_w) ** 2 / (total * w / tot_w) for b, w in law.items() if w)
+            thr = _threshold(sum(1 for w in law.values() if w) - 1)
+            evaluated[0] += 1
+            rep = stat in ("pairletter:r0:r1:q0", "pairletter:r0:r2:q0", "signpair:r0:r1") or stat.startswith("obs")
+            if x2 > thr or rep:   # report representatives, and all failures
+                out.append((name, x2 <= thr, {"statistic": what, "sampler": sampler, "N": n, "regime": regime,
+                                             "stat": stat, "n": total, "chi2": round(x2, 2), "threshold": round(thr, 2),
+                                             "false_alarm_level": 1e-9}))
             continue
         if stat.startswith("letter:"):
             if total < 400:
